@@ -18,17 +18,18 @@ Proof.
 Qed.
 
 (* ---- the set of one row --------------------------------------------------------------------- *)
-Theorem indices_row_spec alpha ol pv tv j :
-  In j (indices_row alpha ol pv tv) <->
-  j < length pv /\ xltb (vnth pv j) (Fin alpha) = true /\
+Theorem indices_row_spec alpha ol own pv tv j :
+  In j (indices_row alpha ol own pv tv) <->
+  j < length pv /\ j <> own /\ xltb (vnth pv j) (Fin alpha) = true /\
   (ol = true -> xltb (vnth tv j) (Fin 0) = true).
 Proof.
-  unfold indices_row. rewrite filter_In, in_seq, sig_cell_spec. split.
-  - intros [[_ H] [H1 H2]]. auto.
-  - intros [H [H1 H2]]. split; [lia|auto].
+  unfold indices_row. rewrite filter_In, in_seq, andb_true_iff, negb_true_iff,
+    Nat.eqb_neq, sig_cell_spec. split.
+  - intros [[_ H] [Hn [H1 H2]]]. auto.
+  - intros [H [Hn [H1 H2]]]. split; [lia|auto].
 Qed.
 
-Theorem indices_row_nodup alpha ol pv tv : NoDup (indices_row alpha ol pv tv).
+Theorem indices_row_nodup alpha ol own pv tv : NoDup (indices_row alpha ol own pv tv).
 Proof. unfold indices_row. apply NoDup_filter. apply seq_NoDup. Qed.
 
 Lemma filter_seq_sorted (f : nat -> bool) s n :
@@ -41,23 +42,37 @@ Proof.
   - apply IH.
 Qed.
 
-Theorem indices_row_sorted alpha ol pv tv : StronglySorted lt (indices_row alpha ol pv tv).
+Theorem indices_row_sorted alpha ol own pv tv : StronglySorted lt (indices_row alpha ol own pv tv).
 Proof. apply filter_seq_sorted. Qed.
 
-Theorem indices_col_row alpha ol P T i : i < nrows P ->
-  nth i (indices_col alpha ol P T) [] = indices_row alpha ol (mrow P i) (mrow T i).
+Theorem indices_col_row alpha ol own P T i : i < nrows P ->
+  nth i (indices_col alpha ol own P T) [] = indices_row alpha ol own (mrow P i) (mrow T i).
 Proof. intros H. unfold indices_col. rewrite (tab_nth (nrows P) _ [] i H). reflexivity. Qed.
 
 (* ---- secondary alpha ---------------------------------------------------------------------------- *)
-Theorem alt_superset_row (a b : Q) ol pv tv : (a <= b)%Q ->
-  incl (indices_row a ol pv tv) (indices_row b ol pv tv).
+Theorem alt_superset_row (a b : Q) ol own pv tv : (a <= b)%Q ->
+  incl (indices_row a ol own pv tv) (indices_row b ol own pv tv).
 Proof.
-  intros H j. rewrite !indices_row_spec. intros [H1 [H2 H3]].
-  split; [exact H1|]. split; [|exact H3]. apply (xltb_mono_r _ a b H H2).
+  intros H j. rewrite !indices_row_spec. intros [H1 [Hn [H2 H3]]].
+  split; [exact H1|]. split; [exact Hn|]. split; [|exact H3]. apply (xltb_mono_r _ a b H H2).
 Qed.
 
 (* ---- the column itself ---------------------------------------------------------------------------- *)
-(* p(c,c) is 1 (t = 0) or NaN (0/0) on the column-proportion and means paths: never reported *)
+(* the own position is never in the set: for every p, t, alpha and only-larger flag *)
+Theorem indices_row_self_excluded alpha ol own pv tv : ~ In own (indices_row alpha ol own pv tv).
+Proof. rewrite indices_row_spec. intros [_ [H _]]. apply H. reflexivity. Qed.
+
+(* ... in every row of the matrices of the selected column (rows beyond the matrix: empty) *)
+Theorem indices_col_self_excluded alpha ol own P T i :
+  ~ In own (nth i (indices_col alpha ol own P T) []).
+Proof.
+  destruct (Nat.lt_ge_cases i (nrows P)) as [H|H].
+  - rewrite indices_col_row by exact H. apply indices_row_self_excluded.
+  - rewrite nth_overflow; [intros []|]. unfold indices_col. rewrite tab_length. exact H.
+Qed.
+
+(* p(c,c) is 1 (t = 0) or NaN (0/0) on the column-proportion and means paths: the threshold
+   test alone already rejects it *)
 Theorem self_excluded_p_one alpha ol t : (alpha <= 1)%Q -> sig_cell alpha ol (Fin 1) t = false.
 Proof.
   intros H. unfold sig_cell.
@@ -78,63 +93,105 @@ Proof.
   - simpl. destruct p as [q|[|]|]; simpl; try reflexivity. apply andb_false_r.
 Qed.
 
-(* ... but the overlap path reports p = 0 for a column against itself: with only_larger off
-   the column itself IS reported - the property is refuted for that path *)
-Theorem overlap_self_reported_refuted :
-  exists alpha : Q, (0 < alpha)%Q /\ (alpha < 1)%Q /\ sig_cell alpha false ov_p_self (Fin 0) = true.
-Proof. exists (5 # 100)%Q. repeat split. Qed.
+(* the overlap path reports p = 0 for a column against itself: for EVERY alpha > 0 the
+   threshold test with only_larger off accepts it - and still the own position is not listed *)
+Theorem overlap_self_not_listed (alpha : Q) ol own pv tv :
+  (0 < alpha)%Q -> vnth pv own = ov_p_self ->
+  sig_cell alpha false (vnth pv own) (Fin 0) = true /\
+  ~ In own (indices_row alpha ol own pv tv).
+Proof.
+  intros Ha E. split; [|apply indices_row_self_excluded].
+  rewrite E. unfold sig_cell, ov_p_self. simpl orb. rewrite andb_true_r.
+  apply xltb_fin. exact Ha.
+Qed.
 
 (* ---- display positions ---------------------------------------------------------------------------- *)
 Theorem display_set_spec alpha ol Pm Tm ord row dc dj :
   In dj (display_set alpha ol Pm Tm ord row dc) <->
-  dj < length ord /\
+  dj < length ord /\ dj <> dc /\
   sig_cell alpha ol (mnth (Pm (nth dc ord 0)) row (nth dj ord 0))
                     (mnth (Tm (nth dc ord 0)) row (nth dj ord 0)) = true.
 Proof.
-  unfold display_set. rewrite filter_In, in_seq. split.
-  - intros [[_ H] H1]. auto.
-  - intros [H H1]. split; [lia|auto].
+  unfold display_set. rewrite filter_In, in_seq, andb_true_iff, negb_true_iff, Nat.eqb_neq. split.
+  - intros [[_ H] [Hn H1]]. auto.
+  - intros [H [Hn H1]]. split; [lia|auto].
 Qed.
 
-(* the reported positions denote exactly the shown payload columns b that are significant
-   against the cell's own payload column s - it depends on [ord] only through "b is shown" *)
-Theorem display_set_payload alpha ol Pm Tm ord row dc b :
-  In b (map (fun dj => nth dj ord 0) (display_set alpha ol Pm Tm ord row dc)) <->
-  In b ord /\
-  sig_cell alpha ol (mnth (Pm (nth dc ord 0)) row b) (mnth (Tm (nth dc ord 0)) row b) = true.
+Theorem display_set_self_excluded alpha ol Pm Tm ord row dc :
+  ~ In dc (display_set alpha ol Pm Tm ord row dc).
+Proof. rewrite display_set_spec. intros [_ [H _]]. apply H. reflexivity. Qed.
+
+(* a display shows every payload column at most once: positions and payload columns correspond *)
+Lemma nodup_pos_iff (ord : list nat) dj dc : NoDup ord -> dj < length ord -> dc < length ord ->
+  (dj <> dc <-> nth dj ord 0 <> nth dc ord 0).
 Proof.
-  rewrite in_map_iff. split.
-  - intros [dj [E H]]. apply display_set_spec in H as [H1 H2]. subst b.
-    split; [apply nth_In; exact H1|exact H2].
-  - intros [H1 H2]. apply (In_nth _ _ 0) in H1 as [dj [Hlt E]].
-    exists dj. split; [exact E|]. apply display_set_spec. rewrite E. auto.
+  intros ND H1 H2. split.
+  - intros Hn E. apply Hn. apply (proj1 (NoDup_nth ord 0) ND dj dc H1 H2 E).
+  - intros Hn E. apply Hn. rewrite E. reflexivity.
+Qed.
+
+(* the reported positions denote exactly the shown payload columns b, OTHER than the cell's own
+   payload column s, that are significant against s - it depends on [ord] only through
+   "b is shown" *)
+Theorem display_set_payload alpha ol Pm Tm ord row dc b :
+  NoDup ord -> dc < length ord ->
+  (In b (map (fun dj => nth dj ord 0) (display_set alpha ol Pm Tm ord row dc)) <->
+   In b ord /\ b <> nth dc ord 0 /\
+   sig_cell alpha ol (mnth (Pm (nth dc ord 0)) row b) (mnth (Tm (nth dc ord 0)) row b) = true).
+Proof.
+  intros ND Hdc. rewrite in_map_iff. split.
+  - intros [dj [E H]]. apply display_set_spec in H as [H1 [Hn H2]]. subst b.
+    split; [apply nth_In; exact H1|]. split; [|exact H2].
+    apply (nodup_pos_iff ord dj dc ND H1 Hdc). exact Hn.
+  - intros [H1 [Hn H2]]. apply (In_nth _ _ 0) in H1 as [dj [Hlt E]].
+    exists dj. split; [exact E|]. apply display_set_spec. rewrite E.
+    split; [exact Hlt|]. split; [|exact H2].
+    apply (nodup_pos_iff ord dj dc ND Hlt Hdc). rewrite E. exact Hn.
+Qed.
+
+(* the own payload column is never among the reported ones *)
+Theorem display_set_payload_self_excluded alpha ol Pm Tm ord row dc :
+  NoDup ord -> dc < length ord ->
+  ~ In (nth dc ord 0) (map (fun dj => nth dj ord 0) (display_set alpha ol Pm Tm ord row dc)).
+Proof.
+  intros ND Hdc H. apply (display_set_payload alpha ol Pm Tm ord row dc _ ND Hdc) in H.
+  destruct H as [_ [H _]]. apply H. reflexivity.
 Qed.
 
 (* equivariance: two arbitrary displays (any permutation, hidden columns, inserted columns);
    the cells showing the same payload column report the same payload columns, as far as both
-   displays show them *)
+   displays show them (the own column corresponds to the own column) *)
 Theorem display_set_equivariant alpha ol Pm Tm ord ord' row dc dc' b :
+  NoDup ord -> NoDup ord' -> dc < length ord -> dc' < length ord' ->
   nth dc ord 0 = nth dc' ord' 0 -> In b ord -> In b ord' ->
   (In b (map (fun dj => nth dj ord 0) (display_set alpha ol Pm Tm ord row dc)) <->
    In b (map (fun dj => nth dj ord' 0) (display_set alpha ol Pm Tm ord' row dc'))).
 Proof.
-  intros E H1 H2. rewrite !display_set_payload. rewrite E. tauto.
+  intros ND ND' Hdc Hdc' E H1 H2.
+  rewrite (display_set_payload alpha ol Pm Tm ord row dc b ND Hdc).
+  rewrite (display_set_payload alpha ol Pm Tm ord' row dc' b ND' Hdc').
+  rewrite E. tauto.
 Qed.
 
 (* positional form: same payload columns at (dc, dj) and (dc', dj') => same decision *)
 Theorem display_set_equivariant_pos alpha ol Pm Tm ord ord' row dc dc' dj dj' :
+  NoDup ord -> NoDup ord' -> dc < length ord -> dc' < length ord' ->
   nth dc ord 0 = nth dc' ord' 0 -> nth dj ord 0 = nth dj' ord' 0 ->
   dj < length ord -> dj' < length ord' ->
   (In dj (display_set alpha ol Pm Tm ord row dc) <->
    In dj' (display_set alpha ol Pm Tm ord' row dc')).
 Proof.
-  intros E1 E2 H1 H2. rewrite !display_set_spec. rewrite E1, E2. tauto.
+  intros ND ND' Hdc Hdc' E1 E2 H1 H2. rewrite !display_set_spec.
+  rewrite (nodup_pos_iff ord dj dc ND H1 Hdc).
+  rewrite (nodup_pos_iff ord' dj' dc' ND' H2 Hdc').
+  rewrite E1, E2. tauto.
 Qed.
 
 Theorem display_set_alt_superset (a b : Q) ol Pm Tm ord row dc : (a <= b)%Q ->
   incl (display_set a ol Pm Tm ord row dc) (display_set b ol Pm Tm ord row dc).
 Proof.
-  intros H dj. rewrite !display_set_spec. intros [H1 H2]. split; [exact H1|].
+  intros H dj. rewrite !display_set_spec. intros [H1 [Hn H2]]. split; [exact H1|].
+  split; [exact Hn|].
   apply sig_cell_spec in H2 as [H2 H3]. apply sig_cell_spec. split; [|exact H3].
   apply (xltb_mono_r _ a b H H2).
 Qed.
@@ -210,9 +267,9 @@ Proof.
 Qed.
 
 (* hence the secondary sets contain the primary ones, for every accepted alpha spelling *)
-Theorem alt_superset v a b ol pv tv :
+Theorem alt_superset v a b ol own pv tv :
   alpha_parse v = A_ok a (Some b) ->
-  incl (indices_row a ol pv tv) (indices_row b ol pv tv).
+  incl (indices_row a ol own pv tv) (indices_row b ol own pv tv).
 Proof.
   intros H. apply alt_superset_row.
   destruct (alpha_parse_sound v a (Some b) H) as [_ H2]. destruct (H2 b eq_refl) as [_ L]. exact L.
